@@ -262,3 +262,31 @@ def same(a, b, depth=0):
         return bool(a == b)
     except Exception:
         return a is b
+
+
+def _mutables(o, acc=None, depth=0):
+    """ids of the mutable containers reachable from o"""
+    acc = {} if acc is None else acc
+    if depth > 8 or id(o) in acc:
+        return acc
+    if isinstance(o, (list, dict, set, bytearray, collections.deque, collections.ChainMap)):
+        acc[id(o)] = o
+    if isinstance(o, collections.ChainMap):
+        for m in o.maps:
+            _mutables(m, acc, depth + 1)
+    elif isinstance(o, (dict, types.MappingProxyType)):
+        for k, v in o.items():
+            _mutables(v, acc, depth + 1)
+    elif isinstance(o, (list, tuple, set, frozenset, collections.deque)):
+        for v in o:
+            _mutables(v, acc, depth + 1)
+    elif dataclasses.is_dataclass(o) and not isinstance(o, type):
+        for f in dataclasses.fields(o):
+            _mutables(getattr(o, f.name, None), acc, depth + 1)
+    return acc
+
+
+def shared_mutables(a, b):
+    """mutable containers reachable from both a and b"""
+    ma, mb = _mutables(a), _mutables(b)
+    return [ma[i] for i in ma if i in mb]
